@@ -17,7 +17,7 @@
          are given (oracles_local; true of the executable exact-arithmetic instances and of LAPACK's contract).
    Partial: process scheduling of pools is exercised, not modelled. *)
 From Coq Require Import ZArith List Bool.
-From TJ Require Import Base.Imp Base.Fops Gen.BatchTasksGen Gen.KernelPyx Model.BatchSpec Model.Paths Proofs.BatchProofs Proofs.PathProofs Proofs.KernelChar Proofs.KernelLoops.
+From TJ Require Import Base.Imp Base.Fops Gen.BatchTasksGen Gen.KernelPyx Model.BatchSpec Model.Paths Proofs.BatchProofs Proofs.PathProofs Proofs.KernelChar Proofs.KernelLoops Base.SymReal Proofs.OracleLocal.
 Import ListNotations. Open Scope Z_scope.
 
 Theorem C05_batching_invariant {A B} (eval : A -> B) (rows : list A) (n_batches : Z) :
@@ -50,6 +50,10 @@ Theorem C05_history_independent {F} (fo : fops F) (orc : oracles F) (nt nl : nat
   snd (likelihood_worker fo orc (Z.of_nat nt) (Z.of_nat nl) 0 s0) = snd (likelihood_worker fo orc (Z.of_nat nt) (Z.of_nat nl) 0 s0').
 Proof. exact (worker_history_independent fo orc nt nl s0 s0' Y U). Qed.
 
+(* the oracle instances the per-run certificates execute (exact Gauss-Jordan on the n x n block) meet that locality contract *)
+Theorem C05_executable_oracles_local (tbl : kepler_table) : oracles_local (sr_oracles tbl).
+Proof. exact (sr_oracles_local tbl). Qed.
+
 Example C05_ex : run_file_path (fun x => 10 * x) [1; 2; 3; 4; 5; 6; 7] 3 = [10; 20; 30; 40; 50; 60; 70]
               /\ run_file_path (fun x => x + 1) [1; 2] 5 = [2; 3].
 Proof. split; vm_compute; reflexivity. Qed.
@@ -60,3 +64,4 @@ Print Assumptions C05_batchings_agree.
 Print Assumptions C05_any_cover.
 Print Assumptions C05_same_state_on_all_paths.
 Print Assumptions C05_history_independent.
+Print Assumptions C05_executable_oracles_local.
